@@ -4,8 +4,8 @@
    rejection is a theorem), every signed mode. *)
 From Coq Require Import List Arith Permutation ZArith.
 From Coq Require Import Sorted.
-From TLV Require Import Base.Shape Base.PyList Base.Tensor Model.Base Model.BaseExt
-  Proofs.BaseProofs Proofs.BaseProofs2 Proofs.BaseProofs3 Proofs.BaseProofs4 Proofs.BaseProofs5 Proofs.BaseProofs6 Proofs.BaseProofs7 Proofs.BaseProofs8.
+From TLV Require Import Base.Shape Base.PyList Base.Tensor Model.Base Model.BaseExt Model.BasePy
+  Proofs.BaseProofs Proofs.BaseProofs2 Proofs.BaseProofs3 Proofs.BaseProofs4 Proofs.BaseProofs5 Proofs.BaseProofs6 Proofs.BaseProofs7 Proofs.BaseProofs8 Proofs.BaseProofs9 Proofs.BaseProofs10.
 Import ListNotations.
 
 Theorem C01_fold_unfold : forall (A : Type) (d : A) (t : tensor A) (m : nat),
@@ -369,3 +369,92 @@ Example C01_nonvacuous :
   wf t /\ 2 < ndim t /\ 0 < prod (shape t) /\
   unfold 0 t 2 = Ok (mk [2;6] [0;1;4;5;8;9;2;3;6;7;10;11]).
 Proof. cbv zeta. unfold wf, ndim. cbn [shape data]. repeat split; try (vm_compute; reflexivity); vm_compute; auto with arith. Qed.
+
+(* ---------- the statement-by-statement model over an abstract backend (Model/BasePy.v; regenerated from the Python source
+   and re-proved equal on every run by the harness): dtype tag, entries, agreement with the hand model ---------- *)
+
+(* whatever relation the three backend calls respect, all nine functions of base.py respect *)
+Theorem C01_g_invariant : forall (T : Type) (B : backend T) (R : T -> T -> Prop),
+  (forall a b c, R a b -> R b c -> R a c) ->
+  (forall t l u, b_reshape B t l = Ok u -> R t u) ->
+  (forall t a b u, b_moveaxis B t a b = Ok u -> R t u) ->
+  (forall t p u, b_transpose B t p = Ok u -> R t u) ->
+  forall t u : T,
+  (g_tensor_to_vec B t = Ok u -> R t u) /\
+  (forall s, g_vec_to_tensor B t s = Ok u -> R t u) /\
+  (forall m, g_unfold B t m = Ok u -> R t u) /\
+  (forall m s, g_fold B t m s = Ok u -> R t u) /\
+  (forall m sb se rav, g_partial_unfold B t m sb se rav = Ok u -> R t u) /\
+  (forall m s sb se, g_partial_fold B t m s sb se = Ok u -> R t u) /\
+  (forall sb se, g_partial_tensor_to_vec B t sb se = Ok u -> R t u) /\
+  (forall s sb se, g_partial_vec_to_tensor B t s sb se = Ok u -> R t u) /\
+  (forall rows cols, g_matricize B t rows cols = Ok u -> R t u).
+Proof. exact @g_invariant. Qed.
+Print Assumptions C01_g_invariant.
+
+(* no entry duplicated or dropped: on the NumPy backend (signed modes and skips, any request that succeeds) *)
+Theorem C01_g_Permutation : forall (A : Type) (d : A) (t u : tensor A),
+  let P := wf t -> wf u /\ Permutation (data u) (data t) in
+  (g_tensor_to_vec (plain d) t = Ok u -> P) /\
+  (forall s, g_vec_to_tensor (plain d) t s = Ok u -> P) /\
+  (forall m, g_unfold (plain d) t m = Ok u -> P) /\
+  (forall m s, g_fold (plain d) t m s = Ok u -> P) /\
+  (forall m sb se rav, g_partial_unfold (plain d) t m sb se rav = Ok u -> P) /\
+  (forall m s sb se, g_partial_fold (plain d) t m s sb se = Ok u -> P) /\
+  (forall sb se, g_partial_tensor_to_vec (plain d) t sb se = Ok u -> P) /\
+  (forall s sb se, g_partial_vec_to_tensor (plain d) t s sb se = Ok u -> P) /\
+  (forall rows cols, g_matricize (plain d) t rows cols = Ok u -> P).
+Proof. exact @g_plain_Permutation. Qed.
+Print Assumptions C01_g_Permutation.
+
+(* no entry re-typed: on arrays carrying a dtype tag, the result of every function carries the tag of its input and its
+   entries are a permutation of the input's entries *)
+Theorem C01_g_dtype_preserved : forall (A : Type) (d : A) (D : Type) (a u : ndarray A D),
+  let P := dt u = dt a /\ (wf (arr a) -> wf (arr u) /\ Permutation (data (arr u)) (data (arr a))) in
+  (g_tensor_to_vec (typed d D) a = Ok u -> P) /\
+  (forall s, g_vec_to_tensor (typed d D) a s = Ok u -> P) /\
+  (forall m, g_unfold (typed d D) a m = Ok u -> P) /\
+  (forall m s, g_fold (typed d D) a m s = Ok u -> P) /\
+  (forall m sb se rav, g_partial_unfold (typed d D) a m sb se rav = Ok u -> P) /\
+  (forall m s sb se, g_partial_fold (typed d D) a m s sb se = Ok u -> P) /\
+  (forall sb se, g_partial_tensor_to_vec (typed d D) a sb se = Ok u -> P) /\
+  (forall s sb se, g_partial_vec_to_tensor (typed d D) a s sb se = Ok u -> P) /\
+  (forall rows cols, g_matricize (typed d D) a rows cols = Ok u -> P).
+Proof. exact @g_typed_same_type. Qed.
+Print Assumptions C01_g_dtype_preserved.
+
+(* ... hence, for ANY notion `ty` of "value x is of dtype D": a well-typed input gives a well-typed result of the same dtype *)
+Theorem C01_g_entries_keep_their_type : forall (A : Type) (D : Type) (ty : D -> A -> Prop) (a u : ndarray A D),
+  (dt u = dt a /\ (wf (arr a) -> wf (arr u) /\ Permutation (data (arr u)) (data (arr a)))) ->
+  wf (arr a) -> Forall (ty (dt a)) (data (arr a)) ->
+  dt u = dt a /\ wf (arr u) /\ Forall (ty (dt u)) (data (arr u)).
+Proof. exact @same_type_entries. Qed.
+Print Assumptions C01_g_entries_keep_their_type.
+
+(* on the NumPy backend the statement-by-statement model IS the hand model the theorems above are about *)
+Theorem C01_g_is_model : forall (A : Type) (d : A) (t : tensor A),
+  g_tensor_to_vec (plain d) t = tensor_to_vec t /\
+  (forall s, g_vec_to_tensor (plain d) t (map Z.of_nat s) = vec_to_tensor t s) /\
+  (forall m, g_unfold (plain d) t m = unfold_z d t m) /\
+  (forall m s, g_fold (plain d) t m (map Z.of_nat s) = fold_z d t m s) /\
+  (forall m sb se rav, g_partial_unfold (plain d) t m (Z.of_nat sb) (Z.of_nat se) rav = partial_unfold_z d t m sb se rav) /\
+  (forall m s sb se se', g_partial_fold (plain d) t m (map Z.of_nat s) (Z.of_nat sb) se = partial_fold_z d t m s sb se') /\
+  (forall sb se, g_partial_tensor_to_vec (plain d) t (Z.of_nat sb) (Z.of_nat se) = partial_unfold_z d t 0%Z sb se true) /\
+  (forall s sb se se', g_partial_vec_to_tensor (plain d) t (map Z.of_nat s) (Z.of_nat sb) se = partial_fold_z d t 0%Z s sb se').
+Proof.
+  intros A d t.
+  exact (conj (g_tensor_to_vec_eq d t) (conj (g_vec_to_tensor_eq d t) (conj (g_unfold_eq d t) (conj (g_fold_eq d t)
+        (conj (g_partial_unfold_eq d t) (conj (g_partial_fold_eq d t) (conj (g_partial_tensor_to_vec_eq d t) (g_partial_vec_to_tensor_eq d t)))))))).
+Qed.
+Print Assumptions C01_g_is_model.
+
+Example C01_nonvacuous_typed :
+  let a := mkarr 5 (mk [2;3] (seq 0 6)) in
+  wf (arr a) /\
+  g_unfold (typed 0 nat) a (-1) = Ok (mkarr 5 (mk [3;2] [0;3;1;4;2;5])) /\
+  g_partial_unfold (typed 0 nat) (mkarr 5 (mk [2;3;2;2] (seq 0 24))) 1 1 1 true
+    = Ok (mkarr 5 (mk [2;6;2] [0;1;4;5;8;9;2;3;6;7;10;11;12;13;16;17;20;21;14;15;18;19;22;23])) /\
+  g_matricize (typed 0 nat) a [1%Z] None = Ok (mkarr 5 (mk [3;2] [0;3;1;4;2;5])) /\
+  g_matricize (typed 0 nat) a [(-1)%Z] (Some [0%Z]) = Err /\
+  g_fold (typed 0 nat) (mkarr 5 (mk [3;2] [0;3;1;4;2;5])) (-1) [2%Z;3%Z] = Ok a.
+Proof. cbv zeta. unfold wf. cbn [arr shape data]. repeat split; vm_compute; reflexivity. Qed.
